@@ -78,7 +78,9 @@ class ParallelMailboxLock:
                 await sleep(0)
                 continue
             break
-        self.counter, = os.pread(self.lock_file.fd, 1, self.no)
+        # the file may still be empty while its creator initializes it
+        data = os.pread(self.lock_file.fd, 1, self.no)
+        self.counter = data[0] if data else 0
 
     async def __aexit__(self, a, b, c):
         os.pwrite(self.lock_file.fd, bytes((self.counter,)), self.no)
